@@ -374,6 +374,9 @@ pub fn func_name(role: u8, n: u8) -> String {
         0 if (n as usize) < 5 => PNAMES[n as usize].to_string(),
         // a fixture may carry the test prefix (real-world: `def test_env(tmpdir, temp_user)`): it stays a fixture
         0 if n % 8 == 7 => format!("test_env_{}", (b'a' + (n % 26)) as char),
+        // names that also occur inside the `def` / `async def` keywords in front of them
+        0 if n % 8 == 6 => "f".to_string(),
+        0 if n % 8 == 5 => "sync".to_string(),
         0 => format!("fx_{}", (b'a' + (n % 26)) as char),
         1 => format!("test_{}", (b'a' + (n % 26)) as char),
         // near-misses of the test prefix must stay plain helpers
